@@ -50,9 +50,9 @@ pub fn poly_fn(module: &str, f: &str, a: &[&str]) -> Option<String> {
             let seed = unhex(a[0])?; let nonce: u16 = a[1].parse().ok()?;
             let mut x = Poly::default(); poly::uniform(&mut x, &seed, nonce); ok(fmt_poly(&x))
         }
-        ("t1_pack", 1) => { let x = poly(a[0])?; let mut r = vec![0u8; params::POLYT1_PACKEDBYTES]; poly::t1_pack(&mut r, &x); ok(hex(&r)) }
+        ("t1_pack", 1) => { let x = poly(a[0])?; let mut r = vec![0xA5u8; params::POLYT1_PACKEDBYTES]; poly::t1_pack(&mut r, &x); ok(hex(&r)) }
         ("t1_unpack", 1) => { let b = unhex(a[0])?; let mut x = Poly::default(); poly::t1_unpack(&mut x, &b); ok(fmt_poly(&x)) }
-        ("t0_pack", 1) => { let x = poly(a[0])?; let mut r = vec![0u8; params::POLYT0_PACKEDBYTES]; poly::t0_pack(&mut r, &x); ok(hex(&r)) }
+        ("t0_pack", 1) => { let x = poly(a[0])?; let mut r = vec![0xA5u8; params::POLYT0_PACKEDBYTES]; poly::t0_pack(&mut r, &x); ok(hex(&r)) }
         ("t0_unpack", 1) => { let b = unhex(a[0])?; let mut x = Poly::default(); poly::t0_unpack(&mut x, &b); ok(fmt_poly(&x)) }
         _ => None,
     }
@@ -91,11 +91,11 @@ macro_rules! poly_set {
                     let mut x = Poly::default(); pm::uniform_gamma1(&mut x, &seed, nonce); ok(fmt_poly(&x))
                 }
                 ("challenge", 1) => { let seed = unhex(a[0])?; let mut x = Poly::default(); pm::challenge(&mut x, &seed); ok(fmt_poly(&x)) }
-                ("eta_pack", 1) => { let x = poly(a[0])?; let mut r = vec![0u8; pp::POLYETA_PACKEDBYTES]; pm::eta_pack(&mut r, &x); ok(hex(&r)) }
+                ("eta_pack", 1) => { let x = poly(a[0])?; let mut r = vec![0xA5u8; pp::POLYETA_PACKEDBYTES]; pm::eta_pack(&mut r, &x); ok(hex(&r)) }
                 ("eta_unpack", 1) => { let b = unhex(a[0])?; let mut x = Poly::default(); pm::eta_unpack(&mut x, &b); ok(fmt_poly(&x)) }
-                ("z_pack", 1) => { let x = poly(a[0])?; let mut r = vec![0u8; pp::POLYZ_PACKEDBYTES]; pm::z_pack(&mut r, &x); ok(hex(&r)) }
+                ("z_pack", 1) => { let x = poly(a[0])?; let mut r = vec![0xA5u8; pp::POLYZ_PACKEDBYTES]; pm::z_pack(&mut r, &x); ok(hex(&r)) }
                 ("z_unpack", 1) => { let b = unhex(a[0])?; let mut x = Poly::default(); pm::z_unpack(&mut x, &b); ok(fmt_poly(&x)) }
-                ("w1_pack", 1) => { let x = poly(a[0])?; let mut r = vec![0u8; pp::POLYW1_PACKEDBYTES]; pm::w1_pack(&mut r, &x); ok(hex(&r)) }
+                ("w1_pack", 1) => { let x = poly(a[0])?; let mut r = vec![0xA5u8; pp::POLYW1_PACKEDBYTES]; pm::w1_pack(&mut r, &x); ok(hex(&r)) }
                 _ => None,
             }
         }
